@@ -102,6 +102,32 @@ func runC13(w *core.World, r *core.Report) {
 		}
 	}
 	r.Floor("R1", "stores to pgDb.tx", nst, 3)
+	// derived closers: an unexported wrapper that calls a closer and has nothing to do with opening
+	// (the commit / rollback sequence hoisted into a shared helper)
+	for round := 0; round < 2; round++ {
+		for _, fn := range fns {
+			if closers[fn] != "" || openers[fn] || token.IsExported(fn.Name()) || fn.Parent() != nil {
+				continue
+			}
+			opens := false
+			kind := ""
+			for _, c := range core.Calls(fn) {
+				g := core.StaticCallee(c)
+				if g == nil {
+					continue
+				}
+				if openers[g] || len(callsToSet(g, openers)) > 0 {
+					opens = true
+				}
+				if k := closers[g]; k != "" && g != fn {
+					kind = k
+				}
+			}
+			if !opens && kind != "" {
+				closers[fn] = kind
+			}
+		}
+	}
 	if len(openers) == 0 {
 		r.Undecided("R2", "transaction opener", token.NoPos, "no function stores a BeginTx result into pgDb.tx")
 		return
@@ -458,9 +484,9 @@ func runC13(w *core.World, r *core.Report) {
 
 	// ---- R4 -----------------------------------------------------------------------------------
 	n4 := 0
-	var checkDeref func(fn *ssa.Function, depth int, label string)
-	checkDeref = func(fn *ssa.Function, depth int, label string) {
-		if depth > 2 {
+	var checkDeref func(fn *ssa.Function, depth int, label string, guarded bool)
+	checkDeref = func(fn *ssa.Function, depth int, label string, guarded bool) {
+		if depth > 3 {
 			return
 		}
 		var nonNil []core.Edge
@@ -481,13 +507,20 @@ func runC13(w *core.World, r *core.Report) {
 			if c.Common().IsInvoke() && isTxField(c.Common().Value) {
 				n4++
 				ok, path := core.MustPass(c.(ssa.Instruction), core.NewCut().AddEdge(nonNil...))
+				if guarded {
+					ok = true // the caller tested the handle before calling this helper
+				}
 				// stopSingle-like helpers reached from operations that just opened are exempt: only when multi
 				// guard or opener precedes - here we only scan non-opening entry points
 				r.Check(ok, "R4", fmt.Sprintf("%s: %s on the stored handle (via %s)", core.QName(fn), c.Common().Method.Name(), label), c.Pos(), "behind tx != nil",
 					"the stored handle is dereferenced without a nil test in a method that can be called with no transaction open (nil pointer panic): "+w.PathString(path))
 			}
 			if g := core.StaticCallee(c); g != nil && core.PkgOf(g) == "db/postgres" && g != fn && !openers[g] {
-				checkDeref(g, depth+1, label)
+				here := false
+				if len(nonNil) > 0 {
+					here, _ = core.MustPass(c.(ssa.Instruction), core.NewCut().AddEdge(nonNil...))
+				}
+				checkDeref(g, depth+1, label, guarded || here)
 			}
 		}
 	}
@@ -497,7 +530,7 @@ func runC13(w *core.World, r *core.Report) {
 		}
 		switch fn.Name() {
 		case "Abort", "Stop", "Close":
-			checkDeref(fn, 0, fn.Name())
+			checkDeref(fn, 0, fn.Name(), false)
 		}
 	}
 	r.Floor("R4", "handle dereferences in Abort/Stop/Close", n4, 2)
@@ -540,7 +573,13 @@ func runC13(w *core.World, r *core.Report) {
 					outer = false
 				}
 				inner := multiFalseEdges(g)
-				for _, cc := range core.CallsTo(g, pgTxIface+".Commit") {
+				commitSites := core.CallsTo(g, pgTxIface+".Commit")
+				for _, hc := range core.Calls(g) {
+					if h := core.StaticCallee(hc); h != nil && h != g && closers[h] == "commit" {
+						commitSites = append(commitSites, hc)
+					}
+				}
+				for _, cc := range commitSites {
 					key := core.QName(g) + ": single-operation commit only outside explicit mode"
 					if seen5[key+w.Pos(cc.Pos())] && !outer {
 						continue
